@@ -494,6 +494,8 @@ class Engine:
         if c.startswith('"') or c.startswith('b"'):
             return Opaque('str')
         if c.startswith('ZeroSized'):
+            if 'PhantomData' in c:
+                return []
             return Opaque(c)
         if c.startswith('{transmute('):
             raise Unsupported('const ' + c)
